@@ -115,10 +115,21 @@ def run(ctx):
         gen.update(counts=[0, 1, 2], caps=[3, 1000], max_parents=2)
     cfg = ctx.write_cfg("epstar_j2.cfg", constants=ec.star_consts(**gen), invariants=["EmitInv"])
     insts = ctx.tlc("EPStar", cfg, workers=4, coverage=False).rec("inst")
+    # a parent whose mutations sit almost entirely on one edge makes _damp return a step < 1 on the
+    # re-visit (the message is >= 90% of the posterior); counts <= 3 never do (added after seed C20-a)
+    damp = dict(max_parents=1, max_edges=2 if q else 3, counts=[0, 1, 12], spans=[1, 2], mu_halves=[2, 1],
+                caps=[1000, 5], max_iters=2)
+    cfg = ctx.write_cfg("epstar_damp.cfg", constants=ec.star_consts(**damp), invariants=musts[:3], constraints=["NoOverflow"])
+    ctx.tlc("EPStar", cfg, workers=8)
+    damp["emit"] = True
+    cfg = ctx.write_cfg("epstar_damp_gen.cfg", constants=ec.star_consts(**damp), invariants=["EmitInv"], constraints=["NoOverflow"])
+    dinsts = ctx.tlc("EPStar", cfg, workers=4, coverage=False).rec("inst")
+    ctx.count("damping_instances", len(dinsts))
     cap_n = 700 if q else 8000
     ctx.exhaustive = len(insts) <= cap_n
     if len(insts) > cap_n:
         insts = ctx.rng.sample(insts, cap_n)
+    insts = insts + dinsts
     for i, inst in enumerate(insts):
         judge_instance(ctx, inst, full_api=(i % (20 if q else 5) == 0))
         ctx.traces += 1
